@@ -63,6 +63,12 @@ def run_case(case):
         return out
     if state == "stack_overflow" and case.get("construct"):
         sig = "stack_overflow: construct=%s" % case["construct"]
+    if state == "silent":
+        # a silent failure has no site to key on: key it on where the input came from, so that a silent failure on
+        # another workload class (or another corpus file as it stands) is still reported
+        k = case["kind"]
+        origin = files[0][0] if k.startswith("corpus") else k.split(":")[0].split("_")[0].rstrip("0123456789")
+        sig = "%s [on %s]" % (sig, origin)
     return {"verdict": VIOLATED, "sig": sig, "detail": detail, "cov": cov,
             "replay": {"files": files, "build": build, "wasm": case.get("wasm", False), "kind": case["kind"],
                        "meta": case.get("meta")}}
